@@ -50,7 +50,7 @@ def plan(tier, seed):
 
 def floors(tier):
     return {'evaluations': 20000, 'distinct_nontrivial': 10000, 'comment_markers_checked': 20000,
-            'formula_markers_checked': 20000, 'discard_markers_checked': 5000, 'histkeys:position': 12,
+            'formula_markers_checked': 20000, 'discard_markers_checked': 5000, 'histkeys:position': 15,
             'histkeys:math_env': 15, 'histkeys:option_cell': 24, 'k2_witness_checked': 1}
 
 
@@ -122,7 +122,9 @@ class Gen(object):
                 inner = '{' + inner + '}'          # braces protect any ] inside the optional argument
             return form % inner
         if r < 0.76:
-            return '\\alpha' + self.comment(dict(ctx, position='after-macro'))
+            form = rng.choice(['\\alpha', '\\alpha', 'x \\\\', 'x\\%', 'y \\&', '{z}', 'w\\,'])
+            pos = {'\\alpha': 'after-macro', 'x \\\\': 'after-linebreak', '{z}': 'after-group'}.get(form, 'after-control-symbol')
+            return form + self.comment(dict(ctx, position=pos))
         if r < 0.90 and ctx['formula'] is None and not ctx.get('noformula'):
             return self.formula(depth, ctx)
         if r < 0.97 and not ctx['discard']:
@@ -151,6 +153,8 @@ class Gen(object):
             body.append(self.comment(dict(fctx, position='comment-in-formula')))
         if rng.random() < 0.2 and env and env not in ('equation', 'equation*', 'split', 'multline', 'multline*'):
             body.append('& z \\\\ w')
+        if rng.random() < 0.15:
+            body.append('u \\\\' + self.comment(dict(fctx, position='comment-in-formula')) + ' v')
         rng.shuffle(body)
         if body[-1].startswith('%'):
             body.append('q')            # a comment must not swallow the closing delimiter
